@@ -392,3 +392,43 @@ def embedded_assignment_with_mappings(H, cname):
     H.check("reads_back", H.eq(H.getattr(amp, cname), v))
     H.check("other_controllers_untouched", H.eq({k: x for k, x in amp.controller_values.items() if k != cname}, before))
     H.cover("reached")
+
+
+@contract("short_mapping_chunk_is_padded_independently", ["C15", "C04", "C17"],
+          targets=["rv.modules.metamodule:MetaModule.MappingArray._set_bytes", "rv.chunks.array:ArrayChunk._set_bytes",
+                   "rv.modules.metamodule:MetaModule.MappingArray.encoded_values"],
+          cases=lambda tier: [("64_entries", 64), ("3_entries", 3)] + ([("95_entries", 95)] if tier == "thorough" else []))
+def short_mapping_chunk_is_padded_independently(H, k):
+    """A MetaModule file whose mapping chunk carries only k < 96 entries (the documented layout has 64):
+    the loader keeps those k, pads with unset (0, 0) mappings up to 96, and every slot is its own
+    object - editing ONE padded mapping in place (any 16-bit target) changes exactly that mapping in
+    what gets saved."""
+    m = MetaModule()
+    m.project.new_module(Amplifier, name="inner amp")
+    m.user_defined_controllers = 2
+    m.mappings.values[0] = MetaModule.Mapping((1, 0))
+    m.mappings.values[1] = MetaModule.Mapping((H.int("file.map1.module", 0, 0xFFFF), H.int("file.map1.ctl", 0, 0xFFFF)))
+    chunks = F.parse_stream(rw.write_container(H, Synth(m)))
+    idx = [i for i, c in enumerate(chunks) if bytes(c[0]) == b"CHNM" and F.dec_u32(c[1]) == 1]
+    H.check("written_file_has_mapping_chunk", len(idx) == 1 and bytes(chunks[idx[0] + 1][0]) == b"CHDT" and len(chunks[idx[0] + 1][1]) == 96 * 4)
+    if len(idx) != 1:
+        return
+    i = idx[0] + 1
+    short = chunks[:i] + [(chunks[i][0], chunks[i][1][: k * 4])] + chunks[i + 1:]
+    q = rw.read_back(H, rw.join([F.frame(bytes(c), d) for c, d in short])).module
+    vals = q.mappings.values
+    H.check("padded_to_96", len(vals) == 96)
+    if len(vals) != 96:
+        return
+    H.check("carried_entries_kept", H.eq([(x.module, x.controller) for x in vals[:2]], [(x.module, x.controller) for x in m.mappings.values[:2]]))
+    H.check("padding_is_unset", all((x.module, x.controller) == (0, 0) for x in vals[k:]))
+    H.check("every_slot_is_its_own_object", len({id(x) for x in vals}) == 96)
+    j = H.choice("edited_slot", [k, min(95, k + 2), 95])
+    nm, nc = H.int("new.module", 0, 0xFFFF), H.int("new.ctl", 0, 0xFFFF)
+    before = [(x.module, x.controller) for x in vals]
+    vals[j].module, vals[j].controller = nm, nc
+    r = rw.read_back(H, rw.write_container(H, Synth(q))).module
+    after = [(x.module, x.controller) for x in r.mappings.values]
+    H.check("edited_mapping_saved", H.eq(after[j], (nm, nc)))
+    H.check("every_other_mapping_untouched", H.eq(after[:j] + after[j + 1:], before[:j] + before[j + 1:]))
+    H.cover("reached")
